@@ -11,7 +11,7 @@ pub fn meta() -> Meta {
     Meta {
         id: "C18",
         level: "exploration",
-        rule: "planted-indel families through `ska build` + `ska lo` (CLI, --threads 1..4 chosen per case, hash seeds owned by the shim, -m in {0, 0.1, 0.2, 0.5} chosen per case — no sample lacks a locus, so none of them may suppress a record): base sequences whose (k-1)-mers are unique on both strands; k in {11,15,21,31}; 1..3 indels exactly 4k apart; lengths 1..10 complete for a single indel and {1,2,k/2,10} for several; the segment is present in the carriers and absent in the others, so every carrier set (every non-trivial subset for n=3,4,5; single/half/all-but-one for n=6,8) covers both polarities (insertion vs deletion relative to the majority); orientations all-forward / alternating. Oracle for EVERY record of every run: before+REF+after (or its reverse complement) is a substring of exactly the samples genotyped 0 and before+ALT+after of exactly those genotyped 1 ('-' = empty allele; 0/1 counts for both), nobody is genotyped for an allele they lack. For the planted families additionally: every record corresponds to one planted indel with its carriers, no indel is reported twice, and the recall is >= 90% over the whole enumerated family and over every sub-family with at least 16 distinct planted positions: each k, each class {single indel, several indels, indel that can be slid by exactly 1-2 positions, by exactly 3-5 positions = homopolymer run / tandem copies, up to three positions found in the base sequence for each (length, slide) pair of a fixed list}, and k x slidable class; counts and misses are reported. A further class puts twin k-mers on the indel branch (U a V U b V with the planted segment across the junction, five base pairs x three lengths: the carriers alone hold both windows and store one ambiguity code for U.V). A class next to a sequence end: exactly k-1, k and k+2 bases between the planted segment and the start / the end of a 6k-base sequence, lengths 1, 3, k/2. Cases whose derived samples break (k-1)-mer uniqueness are judged for soundness only. Every planted layout is run once more through the dev-profile build of the same source (arithmetic overflow checks on): same verdict required, a panic there is an overflow the release build silently wraps.".into(),
+        rule: "planted-indel families through `ska build` + `ska lo` (CLI, --threads 1..4 chosen per case, hash seeds owned by the shim, -m in {0, 0.1, 0.2, 0.5} and one of five -d / -n settings chosen per case — no sample lacks a locus, so none of them may suppress a record): base sequences whose (k-1)-mers are unique on both strands; k in {11,15,21,31}; 1..3 indels exactly 4k apart; lengths 1..10 complete for a single indel and {1,2,k/2,10} for several; the segment is present in the carriers and absent in the others, so every carrier set (every non-trivial subset for n=3,4,5; single/half/all-but-one for n=6,8) covers both polarities (insertion vs deletion relative to the majority); orientations all-forward / alternating. Oracle for EVERY record of every run: before+REF+after (or its reverse complement) is a substring of exactly the samples genotyped 0 and before+ALT+after of exactly those genotyped 1 ('-' = empty allele; 0/1 counts for both), nobody is genotyped for an allele they lack. For the planted families additionally: every record corresponds to one planted indel with its carriers, no indel is reported twice, and the recall is >= 90% over the whole enumerated family and over every sub-family with at least 16 distinct planted positions: each k, each class {single indel, several indels, indel that can be slid by exactly 1-2 positions, by exactly 3-5 positions = homopolymer run / tandem copies, up to three positions found in the base sequence for each (length, slide) pair of a fixed list}, and k x slidable class; counts and misses are reported. A further class puts twin k-mers on the indel branch (U a V U b V with the planted segment across the junction, five base pairs x three lengths: the carriers alone hold both windows and store one ambiguity code for U.V). A class next to a sequence end: exactly k-1, k and k+2 bases between the planted segment and the start / the end of a 6k-base sequence, lengths 1, 3, k/2. Cases whose derived samples break (k-1)-mer uniqueness are judged for soundness only. Every planted layout is run once more through the dev-profile build of the same source (arithmetic overflow checks on): same verdict required, a panic there is an overflow the release build silently wraps.".into(),
         assumptions: vec!["release-profile arithmetic: a debug build panics on a usize underflow in read_graph.rs for short deletion paths (DESIGN §2)".into(), "hash seeds: declared finite set".into()],
         exhaustive_when_uncapped: true,
     }
@@ -121,7 +121,10 @@ pub fn check(c: &IndelCase, seed: u64, dir: &str) -> Result<(usize, usize), Stri
     let m = ["0.2", "0", "0.1", "0.5"][(crate::explore::hash64(&(&c.segs, &c.present)) % 4) as usize];
     // thread count 1..4, derived from the case as well
     let threads = 1 + (crate::explore::hash64(&(&c.present, &c.segs, c.k)) % 4) as usize;
-    let o = lo::run_lo(dir, c.k, &c.samples(), None, &["-m", m], threads, Some(seed))?;
+    // -d and -n do not matter for isolated indels either: one of five settings per case
+    let extras: [Vec<&str>; 5] = [vec!["-m", m], vec!["-m", m, "-d", "1"], vec!["-m", m, "-d", "9"], vec!["-m", m, "-n", "0"], vec!["-m", m, "-n", "7", "-d", "4"]];
+    let extra: &[&str] = &extras[(crate::explore::hash64(&(&c.segs, c.k, &c.present)) % 5) as usize];
+    let o = lo::run_lo(dir, c.k, &c.samples(), None, extra, threads, Some(seed))?;
     let premise = c.premise();
     if o.code != 0 {
         // "no entry node" exit: nothing found at all
